@@ -23,6 +23,8 @@ alias A2 = array<S2, 2>;
 alias R0 = array<S0>;
 alias R1 = array<S1>;
 alias AA0 = array<array<S0, 2>, 3>;
+override TILE: u32 = 4u;
+alias W1 = array<S1, TILE>;
 var<private> g0: f32;
 var<workgroup> g1: f32;
 var<push_constant> g2: f32;
@@ -62,7 +64,7 @@ def run(ctx):
         return t
     member_dom = {1: [hf32, H['S0'], H['A0'], H['R0'], H['AA0']], 2: [hf32, H['S0'], H['S1'], H['A1'], H['R1']],
                   3: [hf32, H['S1'], H['S2'], H['A2'], H['A0']]}
-    gdom = [hf32, H['S0'], H['S1'], H['S2'], H['S3'], H['A0'], H['A2'], H['AA0'], H['R1']]
+    gdom = [hf32, H['S0'], H['S1'], H['S2'], H['S3'], H['A0'], H['A2'], H['AA0'], H['R1'], H['W1']]     # W1: override-sized array (workgroup only)
     adom = [H['S0'], H['S1'], H['S3'], hvec4]
     vdom = [H['S0'], H['Unused']]      # vertex inputs must be flat structs of located scalars for the real pipeline
     rdom = [H['S0'], H['S1'], H['S3'], hvec4]
@@ -115,6 +117,7 @@ def run(ctx):
             g_ = terms[f'g{i}']
             has_rt_ = z3.Or(g_ == H['R0'], g_ == H['R1'], z3.And(g_ == H['S1'], rt1), z3.And(z3.Or(g_ == H['S2'], g_ == H['A2']), rt2), z3.And(g_ == H['S3'], rt3))
             assume.append(z3.Implies(has_rt_, spaces[f'g{i}'] == AS['Storage']))
+            assume.append(z3.Implies(g_ == H['W1'], spaces[f'g{i}'] == AS['WorkGroup']))        # WGSL: override-sized arrays live in workgroup memory
         if opts is opts_bytemuck:
             assume += [terms[k_] != H[r_] for k_ in terms for r_ in ('R0', 'R1')]
         space_of = lambda m_: {k: next(n_ for n_ in SPACES if AS[n_] == model_value(m_, v)) for k, v in spaces.items()}
@@ -266,6 +269,8 @@ alias A2 = array<S2, 2>;
 alias R0 = array<S0>;
 alias R1 = array<S1>;
 alias AA0 = array<array<S0, 2>, 3>;
+override TILE: u32 = 4u;
+alias W1 = array<S1, TILE>;
 {chr(10).join(gl)}
 @vertex fn e0(a: {sp("e0.arg")}, @location(7) b: f32, c: {sp("e0.arg2")}, d: BI) {res("e0.res")} {{ {body("e0.res")} }}
 @fragment fn e1(a: {sp("e1.arg")}, c: {sp("e1.arg2")}) {res("e1.res")} {{ {body("e1.res")} }}
